@@ -157,8 +157,8 @@ PLANS = {
                         "sort.Slice leaves an input without inversions unchanged (the comparator in directories() always returns false); "
                         "ReadDir returns names sorted, timestamps have equal digit counts"],
     },
-    "C01": cosim_plan(_SAFETY_EXCL), "C02": cosim_plan(_SAFETY_EXCL, None, True), "C03": cosim_plan(_SAFETY_EXCL, None, False, False, True),
-    "C04": cosim_plan(_SAFETY_EXCL), "C05": cosim_plan(), "C06": cosim_plan(_SAFETY_EXCL, "ae"), "C07": cosim_plan(_SAFETY_EXCL),
+    "C01": cosim_plan(_SAFETY_EXCL, None, False, False, True), "C02": cosim_plan(_SAFETY_EXCL, None, True), "C03": cosim_plan(_SAFETY_EXCL, None, False, False, True),
+    "C04": cosim_plan(_SAFETY_EXCL, None, False, False, True), "C05": cosim_plan(), "C06": cosim_plan(_SAFETY_EXCL, "ae"), "C07": cosim_plan(_SAFETY_EXCL),
     "C08": cosim_plan(_SAFETY_EXCL, "rv"), "C09": cosim_plan(), "C10": cosim_plan(_SAFETY_EXCL, "is", False, False, True), "C11": cosim_plan(_SAFETY_EXCL, "is"),
     "C14": cosim_plan(_SAFETY_EXCL), "C15": cosim_plan((), None, False, True, True), "C16": cosim_plan(), "C17": cosim_plan(),
     "C18": {
